@@ -78,7 +78,8 @@ class Finders:
     is_dict = isinstance(dict_or_line, dict)
     name = dict_or_line.get("name",None) if is_dict else dict_or_line.get("name")
     if name is not None and not gfapy.is_placeholder(name):
-      collection = [self.__line_by_name(name)]
+      found = self.__line_by_name(name)
+      collection = [found] if found is not None else []
     else:
       if is_dict:
         record_type = dict_or_line.get("record_type",None)
